@@ -80,3 +80,14 @@ pub fn c01_key_through_enum_encodings(k: &SecretKeyEnum)
     let r3 = SecretKeyEnum::try_from(v.as_slice());
     assert(r3 is Ok && ske_curve(r3->Ok_0) == ske_curve(*k) && ske_scalar(r3->Ok_0) == ske_scalar(*k));
 }
+
+/// ... and the public key carried through its byte encoding comes back as the same key (for EVERY key: the
+/// decoder may not refuse a class of valid encodings), so the verification of c01_sign_then_verify goes through
+/// with the re-imported key
+pub fn c01_public_key_through_bytes(pk: &PublicKey)
+{
+    let v = Vec::from(pk);
+    assert(v@.len() == pk_len());
+    let r = PublicKey::try_from(v.as_slice());
+    assert(r is Ok && r->Ok_0.0 == pk.0);
+}
